@@ -95,6 +95,10 @@ pub fn main(a: &Args) {
             let text = if rng.chance(1, 4) { crate::c04::render(&fr, rng.next()) } else { inputs::wrap_front(&fr, &prose, &mut rng) };
             inputs.push((text, fr));
         }
+        for i in 0..a.num("long-tails", 300) {
+            let t = inputs::long_tail_markdown(&corpus, &mut rng);
+            inputs.push((t, if i % 6 == 5 { "plain".to_string() } else { "markdown".to_string() }));
+        }
         for i in 0..a.num("soups", 1500) {
             let t = inputs::token_soup(&mut rng);
             inputs.push((t, ["plain", "markdown", "plain"][i as usize % 3].to_string()));
